@@ -45,6 +45,7 @@ class FnContract:
         self.decreases = ''
         self.loops = {}      # n -> {'iter': name|None, 'text': str}
         self.closures = {}   # n -> text
+        self.closure_params = {}  # n -> explicit parameter list (type ascription only)
         self.hints = []      # (where, n, text)
         self.probes = {}     # name -> text
         self.carves = {}     # name -> text
@@ -107,7 +108,10 @@ def parse_vc(path, into=None, features=()):
                 m = re.match(r'\s*(\d+)(?:\s+iter=(\w+))?', arg)
                 cur.loops[int(m.group(1))] = {'iter': m.group(2), 'text': text}
             elif kind == 'closure':
-                cur.closures[int(arg.strip())] = text
+                mp = re.match(r'\s*(\d+)(?:\s+params=(.*))?$', arg.strip())
+                cur.closures[int(mp.group(1))] = text
+                if mp.group(2):
+                    cur.closure_params[int(mp.group(1))] = mp.group(2).strip().replace('/', ': ')   # `r/&T` stands for `r: &T`
             elif kind == 'hint':
                 a = arg.split()
                 if a[0] == 'start':
